@@ -322,7 +322,10 @@ func (conn *Conn) recv() {
 			call.Error = err
 			call.done()
 		}
-		for _, call := range conn.streams {
+		for seq, call := range conn.streams {
+			// Forget the streams as well: a dead connection must not keep
+			// reporting outstanding calls, or the pool never retires it.
+			delete(conn.streams, seq)
 			if call.stream != nil {
 				call.stream.stop()
 			}
